@@ -8,6 +8,7 @@ import (
 	"io"
 	"reflect"
 	"time"
+	"unsafe"
 
 	"github.com/gorilla/websocket"
 	"verif.local/engine/explore"
@@ -167,3 +168,5 @@ func short(b []byte) string {
 }
 
 func init() { _ = netsim.OK }
+
+func addrOf(b []byte) uintptr { return uintptr(unsafe.Pointer(&b[0])) }
